@@ -255,17 +255,23 @@ def check_keys(ctx):
     _codec.agree(ctx, "C19.P2", gn, REF_KEYS["get_name_from_format"], {"returns": "a record's key is its leading name, else DATA", "raises": "a non-list format has no record name"}, key_prefix="record-name ")
     ai = repo.method("Array", "__init__", inherited=False)
     ctx.touch(ai)
-    acfg = cfg_of(ai.node)
+    # on the path summary of the constructor with its private helpers inlined: which name is stored under which test of
+    # the descriptor (spelling of the branches, locals and helpers do not matter)
+    from .. import normal, summary
+
+    afn, _ = normal.normalise(repo, ai, comps=False, ifexp=False)
+    dparam = afn.args.args[1].arg
     names = {}
-    for n in acfg.real_nodes():
-        if isinstance(n.ast, ast.Assign) and norm(n.ast.targets[0]) == "self.name":
-            # the value stored, through a local if there is one, with the conditions under which it is chosen
-            for value, conds in rules.reaching_values(ai.node, acfg, n, n.ast.value):
-                facts = set()
-                for t, v in conds:
-                    facts |= cnd.canon(t, v)
-                names[norm(value)] = sorted(facts)
-    ok = names.get("List.get_name_from_format(data_format)") == [("isinstance(data_format, list)", True)] and "data_format.__name__" in names
+    for path in summary.summarise(afn):
+        for e, _c in summary.flat_effects(path.effects):
+            if e[0] == "store" and e[1] == "self.name":
+                names.setdefault(e[2], set()).add(tuple(sorted((t, pol) for t, pol in path.conds if dparam in t and ("isinstance(" in t or "hasattr(" in t))))
+    is_list = (f"isinstance({dparam}, list)", True)
+    rec = names.get(f"List.get_name_from_format({dparam})", set())
+    item = names.get(f"{dparam}.__name__", set())
+    ok = bool(rec) and all(is_list in c for c in rec) and bool(item) and all((is_list[0], False) in c for c in item) \
+        and not any(is_list in c for v, cs in names.items() if v != f"List.get_name_from_format({dparam})" for c in cs)
+    names = {k: sorted(v) for k, v in names.items()}
     ctx.ob("C19.P2", ai.qualname, ok, "an open list is keyed by its member record's name or its data item's name" if ok else f"Array names are derived as {names}", where=ai.where)
 
 
